@@ -20,12 +20,12 @@ U1 = {
     "C04": (["handshake", "keepalive"], ["PROPERTY Act_C04"]),
     "C05": (["publisher", "session"], ["PROPERTY Act_C05"]),
     "C06": (["subscriber"], ["PROPERTY Act_C06"]),
-    "C07": (["subscriber"], ["PROPERTY Act_C07", "INVARIANT Inv_C13"]),
+    "C07": (["subscriber"], ["PROPERTY Act_C07", "INVARIANT Inv_C13", "INVARIANT Inv_C07_live"]),
     "C08": (["publisher", "subscriber"], ["INVARIANT Inv_C13"]),
     "C09": (["publisher", "session"], ["PROPERTY Act_C09"]),
     "C10": (["publisher", "session"], ["INVARIANT Inv_C10_stranded", "PROPERTY Act_C10_window"]),
     "C11": (["session", "subscriber"], ["PROPERTY Act_C11"]),
-    "C12": (["session"], ["PROPERTY Act_C12_loss", "PROPERTY Act_C12_resume"]),
+    "C12": (["session"], ["PROPERTY Act_C12_loss", "PROPERTY Act_C12_resume", "PROPERTY Act_C12_fresh"]),
     "C13": (["publisher", "session", "keepalive"], ["INVARIANT Inv_C13"]),
     "C14": (["handshake"], ["PROPERTY Act_C14", "PROPERTY Act_C14_pkt"]),
     "C15": (["keepalive"], ["INVARIANT Inv_C15", "INVARIANT Inv_C13"]),
